@@ -110,3 +110,30 @@ def state_space_builder(shape, types, colors, skip):
         except RuntimeError:
             ok = True
         check('incomplete-builder-raises', lambda: ok)
+
+
+# ------------------------------------------------------------------------- index bounds used by the representations
+def index_bounds(space, o, extra_cls):
+    held_or_cell = any(type(o) is t for t in space.object_types) or isinstance(o, extra_cls)
+    check('type-and-status-indices-of-member-objects-are-bounded', lambda: implies(held_or_cell, lambda: (
+        0 <= o.type_index() and o.type_index() <= space.max_type_index
+        and 0 <= o.state_index and o.state_index < o.num_states() and o.num_states() <= space.max_state_index)))
+    check('colour-indices-of-declared-colours-are-bounded', lambda: implies(
+        o.color in space.colors, lambda: 0 <= o.color.value and o.color.value <= space.max_object_color))
+    check('grid-bounds-do-not-exceed-the-overall-ones', lambda: space.max_grid_object_type <= space.max_type_index
+          and space.max_grid_object_status <= space.max_state_index
+          and space.max_agent_object_type <= space.max_type_index
+          and space.max_agent_object_status <= space.max_state_index)
+
+
+@lemma(args={'space': SSPACE, 'o': 'Obj'}, props=['C15'])
+def state_space_index_bounds(space, o):
+    index_bounds(space, o, NoneGridObject)
+    check('representable-iff-every-class-is', lambda: space.can_be_represented == all(
+        t.can_be_represented_in_state() for t in space.object_types))
+    check('shapes', lambda: space.grid_state_shape == space.grid_shape and space.agent_state_shape == 5)
+
+
+@lemma(args={'space': OSPACE, 'o': 'Obj'}, props=['C15'])
+def observation_space_index_bounds(space, o):
+    index_bounds(space, o, (NoneGridObject, Hidden))
